@@ -24,6 +24,17 @@ func (e *FnEnc) modTargets(c *FuncContract, env *specEnv) (ts []modTarget, all b
 		if m.All {
 			return nil, true
 		}
+		if strings.HasPrefix(m.AnyType, "[]") {
+			// any []T : the elements of every slice / array of T
+			elT := env.resolveType(m.AnyType[2:])
+			if isAggregateElem(elT) {
+				sfail("modifies %s: element type must be scalar", m.Src)
+			}
+			for _, l := range e.sorter.leaves(elT) {
+				ts = append(ts, modTarget{name: elemArrName(typeName(elT), l.suffix), sort: e.arrSort2(l.sort), allow: func(string) string { return "true" }})
+			}
+			continue
+		}
 		if m.AnyType != "" {
 			t := env.resolveType(m.AnyType)
 			st, ok := t.Underlying().(*types.Struct)
